@@ -64,6 +64,14 @@ pub fn run_case(case: &Value) -> Value {
         let imp2 = run_case_plain(&c2);
         if let Some(o) = out.as_object_mut() { o.insert("neutral_nonull".into(), json!({"tables": c2["tables"], "impl": imp2})); }
     }
+    // `"neutral":[…,"noopt"]`: the same case with every optimizer rule switched off (bound plan straight to the physical planner)
+    if case["mode"].as_str() != Some("meta") && case["neutral"].as_array().map(|a| a.iter().any(|x| x == "noopt")).unwrap_or(false) {
+        let mut c2 = case.clone();
+        let base = case["cfg"].as_str().unwrap_or("memb").split('+').next().unwrap_or("memb").to_string();
+        c2["cfg"] = json!(format!("{}+noopt", base));
+        let imp2 = run_case_plain(&c2);
+        if let Some(o) = out.as_object_mut() { o.insert("neutral_noopt".into(), json!({"impl": imp2})); }
+    }
     out
 }
 
@@ -116,7 +124,7 @@ pub fn family_main(o: &Opts, prop: &str, seed_tag: u64, default_strata: &str, de
         // rotate the single configuration of a spec-mode case over the list
         let one = [cfgs[n % cfgs.len()].clone()];
         let mut case = make_case(&prop, &cat, &g.q, &g.tags, g.engine_defined, if meta { &cfgs } else { &one }, meta);
-        if neutral { case["neutral"] = json!(["nonull"]); }
+        if neutral { case["neutral"] = json!(["nonull", "noopt"]); }
         let simple = !g.tags.iter().any(|t| t == "f:join" || t == "f:agg" || t == "f:setop");
         if strict_err == "1" || (strict_err == "simple" && simple) { case["strict_err"] = json!(true); }
         let imp = run_case(&case);
